@@ -7,11 +7,13 @@
   B. hence, after any set of completed exchanges in any interleaving, every in-flight series is 0
      and the request counter equals the number of requests, per series and in total
   C. the in-flight gauge is never negative at any instant (on every path of the grammar)
-  D. the close callback fires exactly once for any number and interleaving of `Close` calls
-  E. hence `active = accepted − closed ≥ 0`, and `active = 0` when all connections are gone
-  F. byte counters equal the bytes moved
+  D. the close callback fires exactly once for any number and interleaving of `Close` calls —
+     whatever the wrapped connection's own `Close` returns each time (nil, net.ErrClosed, anything)
+  E. hence `active = accepted − closed ≥ 0`, and `active = 0` when all connections are gone — over
+     connections of every kind
+  F. byte counters equal the bytes moved — a call that moved `n` bytes and failed counts `n`
 -/
-import FwdVerif.Lemmas.C13
+import FwdVerif.Lemmas.C13Close
 
 namespace FwdVerif
 namespace C13
@@ -220,6 +222,44 @@ example :
 theorem c13_close_once_needed :
     ((CloseSt.init 3).run false [0, 1, 1, 2, 0, 2]).callbacks = 3 := by decide
 
+/-- the result of the wrapped `Close` plays no part: for EVERY sequence of results `res` (nil every time
+    — net.Pipe; net.ErrClosed from the first call on — the stack closed the socket underneath the tracker;
+    any error; any mixture) the machine goes through the states of the plain machine -/
+theorem c13_close_results_irrelevant (n : Nat) (res : Nat → CloseResult) (sched : List Nat) :
+    ((RCloseSt.init n).run .once res sched).base = (CloseSt.init n).run true sched := by
+  rw [rrun_once_base, rinit_base]
+
+/-- exactly once, independent of what the wrapped `Close` returns: at most once always, once as soon as
+    one `Close` call has returned, not before -/
+theorem c13_close_exactly_once_any_result (n : Nat) (res : Nat → CloseResult) (sched : List Nat) :
+    let s := ((RCloseSt.init n).run .once res sched).base
+    s.callbacks ≤ 1 ∧ (0 < s.doneCount → s.callbacks = 1) ∧ (s.doneCount = 0 → s.callbacks = 0) := by
+  simp only [c13_close_results_irrelevant]
+  exact ⟨c13_close_at_most_once n sched, c13_close_exactly_once n sched, c13_close_not_before n sched⟩
+
+-- non-vacuity: four goroutines on a net.Pipe (nil every time), one on a socket the stack closed
+-- underneath (ErrClosed at once), three on a connection that answers nil, other, ErrClosed
+example :
+    let s := ((RCloseSt.init 4).run .once (fun _ => .nil) [0, 1, 2, 3, 3, 2, 1, 0]).base
+    s.doneCount = 4 ∧ s.callbacks = 1 ∧ s.closes = 4 := by decide
+example :
+    let s := ((RCloseSt.init 1).run .once (fun _ => .errClosed) [0, 0]).base
+    s.doneCount = 1 ∧ s.callbacks = 1 := by decide
+example :
+    let s := ((RCloseSt.init 3).run .once (resOf [.nil, .other] .errClosed) [0, 1, 1, 2, 0, 2]).base
+    s.doneCount = 3 ∧ s.callbacks = 1 := by decide
+
+/-- what keeping the `once` (instead of looking at the result) is needed for, 1: a connection the stack
+    closed underneath the tracker answers net.ErrClosed to the only `Close` that goes through the
+    tracker — guarded by "did not get ErrClosed" the callback never runs (the gauge leaks) -/
+theorem c13_close_result_guard_leaks :
+    let s := ((RCloseSt.init 1).run .notErrClosed (fun _ => .errClosed) [0, 0]).base
+    s.doneCount = 1 ∧ s.callbacks = 0 := by decide
+
+/-- … 2: a connection whose `Close` returns nil every time: every concurrent `Close` is counted -/
+theorem c13_close_result_guard_overcounts :
+    ((RCloseSt.init 3).run .notErrClosed (fun _ => .nil) [0, 1, 1, 2, 0, 2]).base.callbacks = 3 := by decide
+
 /-! ## E. Listener / dialer accounting -/
 
 /-- for every sequence of accepts, accept errors and `Close` steps of any goroutine on any
@@ -269,6 +309,40 @@ theorem c13_active_once_needed :
     (LSt.init.run false [.accept 2, .close 0 0, .accept 1, .acceptError, .close 0 1,
       .close 1 0, .close 0 1, .close 0 0, .close 1 0]).active = -1 := by decide
 
+/-- the same over connections of every kind: for every sequence of accepts (each with ANY result
+    behaviour of its wrapped `Close`), accept errors and `Close` steps, `active = accepted − closed`,
+    `0 ≤ active`, and `active = 0` once every connection has been closed by someone -/
+theorem c13_active_any_close_result (ops : List ROp) :
+    let s := RLSt.init.run .once ops
+    s.active = (s.accepted : Int) - (s.closedCount : Int) ∧ 0 ≤ s.active ∧
+      s.conns.length = s.accepted ∧ (s.allGone = true → s.active = 0) := by
+  have hp := rlrun_once_proj RLSt.init ops
+  rw [rlinit_proj] at hp
+  have h := c13_active_eq_accepted_minus_closed (ops.map ROp.proj)
+  have hz := c13_active_returns_to_zero (ops.map ROp.proj)
+  simp only [← hp, rl_closedCount_proj, rl_allGone_proj] at h hz
+  refine ⟨h.1, h.2.1, ?_, hz⟩
+  have := h.2.2
+  simpa [RLSt.proj] using this
+
+-- non-vacuity: a PROXY-protocol connection the stack closed itself (ErrClosed to the server's Close), a
+-- net.Pipe closed by three goroutines, a connection whose Close fails with some error, an accept error
+example :
+    let s := RLSt.init.run .once [.accept 1 (fun _ => .errClosed), .accept 3 (fun _ => .nil), .close 1 0,
+      .close 0 0, .acceptError, .accept 1 (fun _ => .other), .close 1 1, .close 1 2, .close 0 0, .close 2 0,
+      .close 1 0, .close 1 2, .close 1 1, .close 2 0]
+    s.allGone = true ∧ s.accepted = 3 ∧ s.active = 0 ∧ s.errors = 1 ∧ s.closedCount = 3 := by decide
+
+/-- guarded by the result instead of the `once`, the same history leaves the gauge wrong: the
+    connection closed by the stack is never counted as closed, the pipe three times -/
+theorem c13_active_result_guard_wrong :
+    let ops : List ROp := [.accept 1 (fun _ => .errClosed), .accept 3 (fun _ => .nil), .close 1 0,
+      .close 0 0, .acceptError, .accept 1 (fun _ => .other), .close 1 1, .close 1 2, .close 0 0, .close 2 0,
+      .close 1 0, .close 1 2, .close 1 1, .close 2 0]
+    (RLSt.init.run .notErrClosed ops).active = -1 ∧
+      (RLSt.init.run .notErrClosed [.accept 1 (fun _ => .errClosed), .close 0 0, .close 0 0]).active = 1 := by
+  decide
+
 /-! ## F. Byte counters -/
 
 /-- after any sequence of `Read`/`Write`/`ReadFrom` calls the observer holds exactly the bytes
@@ -279,6 +353,32 @@ theorem c13_bytes_conserved (ops : List IoOp) :
   simpa using this
 
 example : (Observer.mk 0 0).run [.read 10, .write 3, .readFrom 4096, .read 0] = ⟨10, 4099⟩ := by decide
+
+/-- one call, whatever its outcome: the counter of its direction advances by the `done` bytes the
+    wrapped connection reported — not by what was asked for, and whether or not the call also
+    returned an error — and the other counter does not move -/
+theorem c13_io_counts_done (o : Observer) (k : IoKind) (requested done : Nat) (err : Bool) :
+    let o' := o.apply (.io k requested done err)
+    (k = .read → o'.rx = o.rx + done ∧ o'.tx = o.tx) ∧
+      (k ≠ .read → o'.tx = o.tx + done ∧ o'.rx = o.rx) := by
+  cases k <;> simp [Observer.apply]
+
+/-- in particular the outcome of a call does not depend on `err` or on `requested` -/
+theorem c13_io_error_irrelevant (o : Observer) (k : IoKind) (r₁ r₂ done : Nat) (e₁ e₂ : Bool) :
+    o.apply (.io k r₁ done e₁) = o.apply (.io k r₂ done e₂) := by
+  cases k <;> rfl
+
+-- non-vacuity: a 64 MiB write cut by the write deadline after 4 MiB, an io.Copy (ReadFrom) reset after
+-- 100 000 bytes, a read that returns its last 7 bytes together with EOF, a read that times out
+example : (Observer.mk 3 5).run [.io .write 67108864 4194304 true, .io .readFrom 1000000 100000 true,
+    .io .read 4096 7 true, .io .read 4096 0 true, .write 10] = ⟨10, 4294319⟩ := by decide
+
+/-- what counting before looking at the error is needed for: returning early on error loses the bytes
+    of every call that was cut short (`Tx` below the bytes on the wire) -/
+theorem c13_io_early_return_loses :
+    let ops : List IoOp := [.write 5, .io .write 67108864 4194304 true, .io .readFrom 1000000 100000 true]
+    ((Observer.mk 0 0).runOkOnly ops).tx = 5 ∧ bytesOut ops = 4294309 ∧
+      ((Observer.mk 0 0).run ops).tx = 4294309 := by decide
 
 end C13
 end FwdVerif
